@@ -219,9 +219,14 @@ def run(fb, rep, tier, cfg):
     r12d(fb, rep)
     from . import r12f
     r12f.run(fb, rep)
-    r12f.r12g(fb, rep)
     from . import r12h
-    r12h.r12h(fb, rep)
-    r12h.r12i(fb, rep)
+    if cfg == "ser":
+        # the serde bridge (api::ser, api::de) only exists with the `serialization` feature
+        r12f.r12g(fb, rep)
+        r12h.r12h(fb, rep)
+        r12h.r12i(fb, rep)
+    else:
+        rep.rule("R12g-i", "serde bridge rules apply to the `serialization` configuration only")
+        rep.ok("R12g-i", "configuration `%s` does not compile api::ser / api::de" % cfg)
     r12h.r12j(fb, rep)
     r12h.r12k(fb, rep)
